@@ -191,6 +191,42 @@ def classify(meta, r, prop):
     return "undecided", [], "unrecognised Kani output"
 
 
+DERIVE_VARS = ("closed set: the sample definitions of kani-harness/src/types.rs and nm.rs "
+               "(the obligation is the type-correctness of the derive output, decided by rustc)")
+
+
+def derive_compile_errors(out):
+    """Compiler error blocks, if *every* one of them originates in the expansion
+    of #[derive(Epserde)] on a sample definition (types.rs / nm.rs); else []."""
+    blocks, cur = [], None
+    for l in out.splitlines():
+        if re.match(r"^(error|warning)(\[E\d+\])?:", l):
+            if cur is not None:
+                blocks.append(cur)
+            cur = [l] if l.startswith("error") else None
+            continue
+        if cur is not None:
+            cur.append(l)
+    if cur is not None:
+        blocks.append(cur)
+    real = []
+    for b in blocks:
+        head = b[0]
+        if re.search(r"could not compile|aborting due to|Failed to (compile|execute)|cargo (exited|terminated)|"
+                     r"previous error|For more information", head):
+            continue
+        real.append("\n".join(b).rstrip())
+    if not real:
+        return []
+    for b in real:
+        loc = re.search(r"--> (\S+?):\d+:\d+", b)
+        in_samples = bool(loc) and re.search(r"src/(types|nm)\.rs$", loc.group(1))
+        from_derive = re.search(r"derive macro `(epserde::)?Epserde`|in this derive macro expansion", b)
+        if not (in_samples and from_derive):
+            return []
+    return real
+
+
 def kani_cmd(metas, jobs, timeout_s, export_json):
     cmd = ["cargo", "kani"] + KANI_FLAGS + [
         "--harness-timeout", f"{timeout_s}s", "-j", str(max(2, jobs)),
@@ -219,6 +255,20 @@ def run(prop, tier, jobs=14, only=None):
                              log=log, limit_mem=True)
     res.extra["log"] = log
     if re.search(r"^error(\[E\d+\])?:", out, re.M) and "Checking harness" not in out:
+        derive_errs = derive_compile_errors(out)
+        if derive_errs and prop == "C05":
+            # C05: "the derived code compiles". Every compiler error lies in the
+            # output of #[derive(Epserde)] on a sample definition that is in the
+            # supported grammar and compiled on the pinned tree.
+            res.obligations.append(Obligation(
+                name="rustc/types::derive_typechecks", prop=prop, backend="rustc (type checker)",
+                kind="complete", status="failed", vars=DERIVE_VARS,
+                detail=["[C05/derive.compiles] the code derived for a sample definition of the supported grammar "
+                        "no longer type-checks: " + derive_errs[0].splitlines()[0][:200]],
+                functions=["epserde-derive/src/lib.rs:epserde_derive"]))
+            res.extra["replay_text"] = "\n\n".join(derive_errs[:6])
+            res.wall_s = time.time() - t0
+            return res
         res.undecided.append("kani: harness crate does not build against the current /repo "
                              "(API changed or tool error); see " + log)
         first = [l for l in out.splitlines() if l.startswith("error")][:3]
@@ -226,6 +276,11 @@ def run(prop, tier, jobs=14, only=None):
         res.wall_s = time.time() - t0
         return res
     parsed = parse_terse(out)
+    if prop == "C05":
+        res.obligations.append(Obligation(
+            name="rustc/types::derive_typechecks", prop=prop, backend="rustc (type checker)",
+            kind="complete", status="discharged", vars=DERIVE_VARS,
+            functions=["epserde-derive/src/lib.rs:epserde_derive"]))
     for m in sel:
         r = parsed.get(m["full"])
         status, detail, why = classify(m, r, prop)
